@@ -8,7 +8,7 @@ rc, out = sh("git -C /repo status --short"); assert out.strip() == "", out
 rc, out = sh(f"git -C /repo apply {src}/patch.diff"); assert rc == 0, out
 try:
     for c in checks:
-        rc, out = sh(f"cd /verif && bin/check {c}")
+        rc, out = sh(f"cd /verif && VERIF_EVIDENCE_DIR=/verif/build/scratch_evidence bin/check {c}")
         lines = [l for l in out.split("\n") if l.startswith("VIOLATION") or l.startswith("[")]
         print(c, "exit", rc); [print("   ", l[:260]) for l in lines[:5]]
 finally:
